@@ -389,7 +389,7 @@ def run(ctx):
         "efficiency formulas and zero guards": "proved on the generated function (values, and that no division by zero / sqrt of a negative is performed) + interval correspondence + bitwise IEEE mirror",
         "C <= Rs and C <= Ri => efficiencies in [0,1]": "proved",
         "rates non-negative": "proved (sums of non-negative terms; spectra non-negative for physical setups)",
-        "eta, F, R in (0,1], F = R = 1 without walk-off": "proved for eta and F, R's integrand and the no-walk-off values; R in [0,1] proved_partial (integrability assumed)",
+        "eta, F, R in (0,1], F = R = 1 without walk-off": "proved (Coquelicot RInt; existence of the iterated integral included)",
         "pointwise JSI <= singles": "validated_only (oracle over the property's box); the chain pointwise => rates => efficiencies is proved (C08_pointwise_partial)",
         "no-diffraction ratio = eta F^2 / R to 1e-4": "validated_only",
         "finite rates": "validated_only",
